@@ -211,6 +211,13 @@ Section S.
   Qed.
 
   (* ---- the boolean predicate holds of the model ---- *)
+  Lemma values_of_state_insert (a b : list (string * string)) (s : string) :
+    list_eqb String.eqb (values_of "state" (a ++ ("state", s) :: b))
+             (values_of "state" a ++ s :: values_of "state" b) = true.
+  Proof.
+    apply (list_eqb_spec String.eqb String.eqb_eq). unfold values_of. rewrite filter_app, map_app. reflexivity.
+  Qed.
+
   Lemma reaches_target q u loc : target_of q u loc -> reaches u (e_state q) loc = true.
   Proof.
     unfold C18_spec.reaches. intros [[-> ->]|[Hs [p [Hu ->]]]].
@@ -223,14 +230,10 @@ Section S.
       destruct (p_frag p) as [f|].
       + change ("#" +++ f) with (String "#" f). rewrite (cut_app "#" _ _ Hh). cbn [option_eqb].
         rewrite String.eqb_refl, parse_encode_query. cbn [andb].
-        unfold l, values_of. apply string_in_In. apply in_map_iff.
-        exists ("state", e_state q). split; [reflexivity|]. apply filter_In. split; [|reflexivity].
-        apply in_or_app. right. left. reflexivity.
+        unfold l. apply values_of_state_insert.
       + rewrite append_nil_r, (cut_none "#" _ Hh). cbn [option_eqb].
         rewrite parse_encode_query.
-        unfold l, values_of. apply string_in_In. apply in_map_iff.
-        exists ("state", e_state q). split; [reflexivity|]. apply filter_In. split; [|reflexivity].
-        apply in_or_app. right. left. reflexivity.
+        unfold l. apply values_of_state_insert.
   Qed.
 
   Lemma spec_redirect q t loc user sc :
@@ -428,6 +431,70 @@ Proof.
   rewrite (string_in_false _ _ Hn). reflexivity.
 Qed.
 
+(* ---- what else the request carries ---- *)
+Definition with_form (x : ereq) (f : list (string * string)) : ereq :=
+  {| r_router := r_router x; r_issuer := r_issuer x; r_keys := r_keys x; r_toks := r_toks x;
+     r_form := f; r_fault := r_fault x |}.
+
+Lemma last_app_cons (l : list string) w ws d : last (l ++ w :: ws) d = last (w :: ws) d.
+Proof.
+  induction l as [|y l IH]; [reflexivity|]. cbn [app]. rewrite <- IH.
+  cbn [last]. destruct (l ++ w :: ws) eqn:E; [destruct l; discriminate|reflexivity].
+Qed.
+
+Lemma values_of_skip k k' v (a b : list (string * string)) :
+  k' <> k -> values_of k (a ++ (k', v) :: b) = values_of k (a ++ b).
+Proof.
+  intro Hn. unfold values_of. rewrite !filter_app. cbn [filter fst].
+  destruct (String.eqb k' k) eqn:E; [apply String.eqb_eq in E; contradiction|reflexivity].
+Qed.
+
+(* a parameter whose name is none of client_id, post_logout_redirect_uri, state - logout_hint,
+   ui_locales, anything unknown - wherever it stands in body or query, changes nothing about the
+   request the validator sees (id_token_hint values are r_toks) *)
+Theorem extra_parameter_irrelevant keys algs (x : ereq) a b k v :
+  r_form x = a ++ (k, v) :: b ->
+  k <> "client_id" -> k <> "post_logout_redirect_uri" -> k <> "state" ->
+  to_esreq keys algs (with_form x (a ++ b)) = to_esreq keys algs x.
+Proof.
+  intros Hf H1 H2 H3. unfold to_esreq, r_tok, r_client, r_uri, r_state, form_last, with_form.
+  cbn [r_router r_issuer r_keys r_toks r_form r_fault]. rewrite Hf, !values_of_skip by assumption.
+  reflexivity.
+Qed.
+
+(* of a repeated known parameter only the last value (body before query) counts *)
+Theorem repeated_parameter_last_counts keys algs (x : ereq) a b k v v' :
+  r_form x = a ++ (k, v) :: b -> In v' (values_of k b) ->
+  to_esreq keys algs (with_form x (a ++ b)) = to_esreq keys algs x.
+Proof.
+  intros Hf Hin.
+  assert (G : forall k0, form_last k0 (a ++ (k, v) :: b) = form_last k0 (a ++ b)).
+  { intro k0. unfold form_last, values_of. rewrite !filter_app, !map_app. cbn [filter fst].
+    destruct (String.eqb k k0) eqn:E; [|reflexivity]. apply String.eqb_eq in E. subst k0.
+    cbn [map snd]. fold (values_of k b). destruct (values_of k b) as [|w ws] eqn:Eb; [destruct Hin|].
+    rewrite (last_app_cons _ v (w :: ws)), (last_app_cons _ w ws). reflexivity. }
+  unfold to_esreq, r_tok, r_client, r_uri, r_state, with_form.
+  cbn [r_router r_issuer r_keys r_toks r_form r_fault]. rewrite Hf, !G. reflexivity.
+Qed.
+
+(* the user whose session is terminated comes from the (last) id_token_hint alone: its subject
+   when it is validly signed under the designated key set, nobody otherwise - whatever r_form holds *)
+Theorem terminated_user_from_hint_only pmatch uparse d ts cs opts (x : ereq) :
+  let h := classify (designated_keys opts) (designated_algs opts) (r_issuer x) (r_keys x) (r_tok x) in
+  (forall loc user sc,
+     end_session pmatch uparse d ts cs (r_router x) (model_esreq opts x) = ERedirect loc (user, sc) ->
+     user = hint_sub h) /\
+  (forall s c user sc,
+     end_session pmatch uparse d ts cs (r_router x) (model_esreq opts x) = EPage s c (Some (user, sc)) ->
+     user = hint_sub h).
+Proof.
+  cbn zeta. rewrite model_spec_esreq.
+  destruct (terminates_right_session pmatch uparse d ts cs (r_router x) (spec_esreq opts x)) as [H1 H2].
+  split.
+  - intros loc user sc H. apply H1 in H as [H _]. exact H.
+  - intros s c user sc H. apply H2 in H as [H _]. exact H.
+Qed.
+
 (* ---- non-vacuity ---- *)
 Definition ex_cs : list lclient :=
   [{| l_id := "web"; l_post := ["https://app.example.com/bye"]; l_globs := Some ["https://app.example.com/out/*"] |}].
@@ -452,9 +519,23 @@ Proof. vm_compute. reflexivity. Qed.
 Example C18_nonvacuous_access_token_keyset :
   let opts := [OptATKeys {| ks_own := true; ks_fixed := ["fk"] |}] in
   let x := {| r_router := Legacy; r_issuer := "https://op.example.com"; r_keys := ["k1"];
-              r_tok := TSigned "fk" "ES256" "https://op.example.com" false "alice" "web";
-              r_client := ""; r_uri := "https://app.example.com/bye"; r_state := ""; r_fault := EF_None |} in
+              r_toks := [TSigned "fk" "ES256" "https://op.example.com" false "alice" "web"];
+              r_form := [("post_logout_redirect_uri", "https://app.example.com/bye")]; r_fault := EF_None |} in
   end_session ex_pm ex_up "/logged-out" TS_Absent ex_cs Legacy (model_esreq opts x) = EPage 400 "invalid_request" None
   /\ end_session ex_pm ex_up "/logged-out" TS_Absent ex_cs Legacy (model_esreq (opts ++ [OptHintKeys {| ks_own := true; ks_fixed := ["fk"] |}]) x)
      = ERedirect "https://app.example.com/bye" ("alice", "web").
 Proof. vm_compute. split; reflexivity. Qed.
+
+(* two logouts on one provider that end on the default URI: each redirect carries its own state
+   only; and a request with logout_hint / a repeated client_id next to a valid hint *)
+Example C18_nonvacuous_sequence_extras :
+  let tk := TSigned "k1" "ES256" "https://op.example.com" false "alice" "web" in
+  let rq f := {| r_router := Provider; r_issuer := "https://op.example.com"; r_keys := ["k1"];
+                 r_toks := [tk]; r_form := f; r_fault := EF_None |} in
+  model (IEnd "/logged-out" TS_Absent [] ex_cs
+           {| t_pm := []; t_up := [("/logged-out", Some {| p_pre := "/logged-out"; p_le := []; p_gt := []; p_frag := None |})] |}
+           [rq [("state", "s1")]; rq [("logout_hint", "mallory"); ("state", "s2")];
+            rq [("client_id", "other"); ("client_id", "web"); ("ui_locales", "de")]])
+  = OEnd [ERedirect "/logged-out?state=s1" ("alice", "web"); ERedirect "/logged-out?state=s2" ("alice", "web");
+          ERedirect "/logged-out" ("alice", "web")].
+Proof. vm_compute. reflexivity. Qed.
